@@ -144,13 +144,13 @@ func (h *vhandler) OnTick() (time.Duration, Action) {
 	h.rec.emit("Tick", "g", vsup.Goid(), "n", int(n))
 	if s := atomic.LoadInt32(&h.tickStop); s > 0 && n >= s {
 		h.rec.emit("StopReq", "src", "OnTick", "g", vsup.Goid())
-		h.rec.emit("TickEnd", "n", int(n))
+		h.rec.emit("TickEnd", "n", int(n), "action", int(Shutdown))
 		return time.Hour, Shutdown
 	}
 	if n%3 == 0 {
 		time.Sleep(25 * time.Millisecond) // a tick that takes a while: shutdown requests arrive while it runs
 	}
-	h.rec.emit("TickEnd", "n", int(n))
+	h.rec.emit("TickEnd", "n", int(n), "action", int(None))
 	return 10 * time.Millisecond, None
 }
 
@@ -238,15 +238,15 @@ func (h *vhandler) OnOpen(c Conn) (out []byte, action Action) {
 	}
 	if sp.closeAt == 0 && sp.closeHow == "action" {
 		h.rec.emit("CloseReq", "c", sp.id, "how", "action-onopen")
-		h.rec.emit("OpenEnd", "c", sp.id, "action", "Close")
+		h.rec.emit("OpenEnd", "c", sp.id, "h", hd, "action", "Close")
 		return out, Close
 	}
 	if sp.stopOn == "OnOpen" {
 		h.rec.emit("StopReq", "src", "OnOpen", "g", g)
-		h.rec.emit("OpenEnd", "c", sp.id, "action", "Shutdown")
+		h.rec.emit("OpenEnd", "c", sp.id, "h", hd, "action", "Shutdown")
 		return out, Shutdown
 	}
-	h.rec.emit("OpenEnd", "c", sp.id, "action", "None")
+	h.rec.emit("OpenEnd", "c", sp.id, "h", hd, "action", "None")
 	return out, None
 }
 
@@ -476,7 +476,7 @@ func (h *vhandler) OnTraffic(c Conn) Action {
 		h.rec.emit("StopReq", "src", "OnTraffic", "g", g)
 		action = Shutdown
 	}
-	h.rec.emit("TrafficEnd", "c", sp.id, "action", int(action), "ib", c.InboundBuffered(), "ob", c.OutboundBuffered())
+	h.rec.emit("TrafficEnd", "c", sp.id, "h", vc.h, "action", int(action), "ib", c.InboundBuffered(), "ob", c.OutboundBuffered())
 	return action
 }
 
@@ -717,7 +717,11 @@ func (h *vhandler) OnClose(c Conn, err error) Action {
 		return None
 	}
 	vc := v.(*vconn)
-	h.rec.emit("Close", "c", vc.spec.id, "g", g, "err", errClass(err), "ib", c.InboundBuffered(), "consumed", vc.consumed)
+	closeAct := None
+	if vc.spec.stopOn == "OnClose" {
+		closeAct = Shutdown
+	}
+	h.rec.emit("Close", "c", vc.spec.id, "h", vc.h, "action", int(closeAct), "g", g, "err", errClass(err), "ib", c.InboundBuffered(), "consumed", vc.consumed)
 	defer atomic.AddInt32(&h.closedN, 1) // after the event is in the log (the scenario's quiescence test reads it)
 	if vc.dupFd > 0 {
 		// our duplicate must have survived the framework's close of its own descriptor; give it up now so
